@@ -57,7 +57,7 @@ def main():
     print(json.dumps(res), "CONFIRMED" if good else "NOT-CONFIRMED")
     if good:
         root = os.path.dirname(os.path.dirname(os.path.abspath(__file__)))
-        sid = f"{prop}-{os.path.basename(out.rstrip('/')).replace('seed-','').replace('-out','')}-m{n}"
+        sid = os.environ.get("SEED_ID") or f"{prop}-{os.path.basename(out.rstrip('/')).replace('seed-','').replace('-out','')}-m{n}"
         dest = os.path.join(root, "seeded", sid)
         os.makedirs(dest, exist_ok=True)
         shutil.copy(patch, os.path.join(dest, "patch.diff"))
